@@ -35,7 +35,7 @@ def class_src(name, fields, meta, style, engine):
 
 PRE = '''from dataclasses import dataclass, field
 from datetime import datetime, timezone
-from typing import Union, Optional, List, Dict, Tuple
+from typing import Union, Optional, List, Dict, Tuple, Any
 from dataclass_wizard import JSONWizard, LoadMeta, DumpMeta, fromdict, asdict, CatchAll
 from dataclass_wizard.models import EQ, NE, LT, LE, GT, GE, IS, IS_NOT, IS_TRUTHY, IS_FALSY
 WHEN = datetime(2021, 5, 6, 7, 8, 9, tzinfo=timezone.utc)
@@ -50,6 +50,9 @@ def type_src(shape, leaf):
     if not shape:
         return leaf
     h, rest = shape[0], shape[1:]
+    if h in ('anylist', 'any', 'anydict'):
+        # the nested class is reachable BY VALUE only: the annotation does not mention it
+        return {'anylist': 'list', 'any': 'Any', 'anydict': 'Dict[str, Any]'}[h]
     inner = 'M%d' % len(rest) if h == 'mid' else type_src(rest, leaf)
     return {'opt': 'Optional[%s]', 'list': 'List[%s]', 'dict': 'Dict[str, %s]', 'tuple': 'Tuple[%s, int]',
             'vtuple': 'Tuple[%s, ...]', 'union': 'Union[%s, int, str]', 'mid': '%s'}[h] % inner
@@ -73,8 +76,9 @@ def build_source(cfg):
             rest = shape[i + 1:]
             src += class_src('M%d' % len(rest), [('inner', type_src(rest, 'N'), None), ('my_val', 'int', '0')],
                              cfg.get('mid'), style, eng)
+    steps = cfg.get('root_steps')
     src += class_src('R', [('n', type_src(shape, 'N'), None), ('my_val', 'int', '0'), ('when', 'datetime', 'WHEN0'),
-                           ('dflt', 'int', '5')], cfg.get('root'), style, eng)
+                           ('dflt', 'int', '5')], steps['part1'] if steps else cfg.get('root'), style, eng)
     if str(cfg.get('history', 'none')).startswith('other_root'):
         # a second root class that reaches the same nested class directly, with its own Meta
         src += class_src('R2', [('n', 'N', None), ('my_val', 'int', '0')], cfg.get('other'), style, eng)
@@ -90,16 +94,17 @@ def wrap(shape, leaf, mk_mid):
     if h == 'mid':
         return mk_mid(len(rest), inner)
     return {'opt': lambda x: x, 'list': lambda x: [x], 'dict': lambda x: {'k': x}, 'tuple': lambda x: (x, 1),
-            'vtuple': lambda x: (x,), 'union': lambda x: x}[h](inner)
+            'vtuple': lambda x: (x,), 'union': lambda x: x, 'anylist': lambda x: [x], 'any': lambda x: x,
+            'anydict': lambda x: {'k': x}}[h](inner)
 
 
 def unwrap(shape, v, get_inner):
     for h in shape:
         if h == 'mid':
             v = get_inner(v)
-        elif h in ('list', 'tuple', 'vtuple'):
+        elif h in ('list', 'tuple', 'vtuple', 'anylist'):
             v = v[0]
-        elif h == 'dict':
+        elif h in ('dict', 'anydict'):
             v = v['k']
     return v
 
@@ -167,6 +172,30 @@ def main():
     R, N = ns['R'], ns['N']
     shape = cfg['shape']
     run_history(cfg, ns, out)
+    steps = cfg.get('root_steps')
+    if steps:
+        # the root is configured in several steps: first part at definition, then the root is USED with the other
+        # engine, then the rest is bound (LoadMeta / DumpMeta .bind_to merges into the registered Meta in place)
+        kw0 = dict(my_val=7, when=ns['WHEN'], dflt=5, a3=3, b4=4)
+        if cfg['probe'] == 'union':
+            kw0['u'] = ns['UB'](x=1)
+        try:
+            if cfg['engine'] == 'dump':
+                full = {'n': wrap(shape, steps['pre_doc'], lambda k, inner: {'inner': inner})}
+                fromdict(R, json.loads(json.dumps(full)))
+            else:
+                asdict(R(my_val=7, when=ns['WHEN'], dflt=5,
+                         n=wrap(shape, N(**kw0), lambda k, inner: ns['M%d' % k](my_val=7, inner=inner))))
+            out['pre_use'] = 'ok'
+        except BaseException as e:  # noqa
+            out['pre_use'] = err_info(e)
+        fn = 'DumpMeta' if cfg['engine'] == 'dump' else 'LoadMeta'
+        try:
+            exec('%s(%s).bind_to(R)' % (fn, ', '.join('%s=%s' % (k, val_src(v)) for k, v in steps['part2'].items())), ns)
+        except BaseException as e:  # noqa
+            out['setup'] = err_info(e)
+            json.dump(out, sys.stdout)
+            return
     if cfg['engine'] == 'dump':
         kw = dict(my_val=7, when=ns['WHEN'], dflt=5, a3=3, b4=4)
         if cfg.get('catchall'):
